@@ -18,7 +18,7 @@ Inductive ostep :=
 | ORace (parked : bool) (trans2 : list snap) (mir2 : omir) (rc rs : N)
 | OPush
 | OSync
-| ODrop (rehello : bool)
+| ODrop (rehello srv_ready : bool)  (* client re-handshaken; server Ready again *)
 | ONoop.
 
 Record orec := {
@@ -92,8 +92,11 @@ Definition run_step (p : pcfg) (pushes : bool) (s : st) (o : orec) : st * list N
       let s' := exec p s [SyncReq; Settle] in
       (s', (if o_timeout o then [4] else [])
            ++ (if mir_eqb s' (o_mir o) then [] else [7]) ++ pushes_ok s')
-  | ODrop rehello =>
-    let s' := exec p s [Hello] in
+  | ODrop rehello srv_ready =>
+    let s1 := exec p s [Hello] in
+    (* the server may miss the new session: the disconnect notification of the
+       previous connection can arrive after the new handshake (observed order) *)
+    let s' := if rehello && negb srv_ready then set_conn s1 false else s1 in
     (s', (if Bool.eqb rehello (negb (cl_stuck (st_cl s))) then [] else [8])
          ++ (if mir_eqb s' (o_mir o) then [] else [8]) ++ pushes_ok s')
   end.
@@ -132,11 +135,11 @@ Definition raced (k : c09case) : bool :=
   existsb (fun o => match o_step o with ORace true _ _ _ _ => true | _ => false end) (k_steps k).
 
 Definition dropped (k : c09case) : bool :=
-  existsb (fun o => match o_step o with ODrop _ => true | _ => false end) (k_steps k).
+  existsb (fun o => match o_step o with ODrop _ _ => true | _ => false end) (k_steps k).
 
 (* the input class a violation is attributed to (first that applies):
    3 per-mutation sync; 2 shallow clocks; 1 a reply was overtaken by a push;
-   6 reconnect on a source with MachineTick <> 0; 8 the placeholder
+   6 a source with MachineTick <> 0; 8 the placeholder
    dataLatest of NewServer was pushed; 5 a full Sync happened; 4 a push
    consumed a snapshot without sending it (empty Indexes); 7 reconnect;
    0 none of these. *)
@@ -145,7 +148,7 @@ Definition cls (k : c09case) : N :=
   if p_mut (k_p k) then 3
   else if shallow (p_codec (k_p k)) then 2
   else if raced k then 1
-  else if dropped k && negb (s_m (k_hello_src k) =? 0) then 6
+  else if negb (s_m (k_hello_src k) =? 0) then 6
   else if st_initpush s then 8
   else if st_synced s then 5
   else if st_silent s then 4
@@ -170,7 +173,8 @@ Definition step_viol (k : c09case) (o : orec) : list N :=
   match o_step o with
   | OClient rc rs => res rc rs
   | ORace true _ _ rc rs => res rc rs
-  | ODrop false => [500]
+  | ODrop false _ => [500]
+  | ODrop true false => [520]
   | _ => []
   end.
 
@@ -185,7 +189,7 @@ Fixpoint changed_since (l : list orec) (acc : bool) : bool :=
   | [] => acc
   | o :: r =>
     match o_step o with
-    | OClient _ _ | OSync | ODrop true => changed_since r (o_timeout o)
+    | OClient _ _ | OSync | ODrop true _ => changed_since r (o_timeout o)
     | ORace _ _ _ _ _ => changed_since r true
     | _ => changed_since r (acc || negb (Nat.eqb (length (o_trans o)) 0))
     end
